@@ -118,6 +118,20 @@ def run(prop, ctx_model):
             n, b = S.validate_against_re(pat, ab, ml, "full")
             total += n
             bad += [("ref " + name,) + x for x in b]
+    if prop == "C09":
+        # the engine's model of re.IGNORECASE (scoped and global), including
+        # the non-ASCII characters that case-fold onto ASCII letters
+        for pat in (r"(?i:[_a-z][_a-z0-9]*)", r"(?i)k[a-c]s", r"[A-Z](?i:x)y",
+                    r"(?i:[^a-z])+"):
+            ab = S.Alphabet(S.charsets_of_pattern(pat) + [
+                S.cs_of("\u0130"), S.cs_of("\u0131"), S.cs_of("\u017f"),
+                S.cs_of("\u212a"), S.cs_of("K"), S.cs_of("s"),
+                S.cs_of("_"), S.cs_of("0")])
+            ml = 3 if ab.n > 8 else 4
+            for sem in ("first", "full"):
+                n, b = S.validate_against_re(pat, ab, ml, sem)
+                total += n
+                bad += [("ignorecase " + pat, sem) + x for x in b]
     if prop == "C18":
         pat = r"[a-zA-Z][-+.a-zA-Z0-9]*:"
         n, b = validate_tagged("(?P<m>%s)" % pat, 5, ":")
